@@ -16,7 +16,7 @@
 (* OperationOutput TypeScript type / each enum value; an abstract position *)
 (* takes every possible object type.                                       *)
 (***************************************************************************)
-EXTENDS SchemaDecl
+EXTENDS SchemaDecl, FiniteSetsExt
 
 (* ------------------------------------------------- directives under sigma *)
 ArgNamed(args, n) == args[CHOOSE i \in DOMAIN args : args[i].name = n].v
@@ -87,73 +87,72 @@ Product(keys, vs) ==
            rest == Product(keys \ {k}, vs)
        IN {(k :> x) @@ r : x \in vs[k], r \in rest}
 
-(* local = FALSE: one sigma throughout (Responses); local = TRUE: sigma re-chosen over V at every selection set (RefLocal) *)
+(* local = FALSE: one sigma throughout (Responses); local = TRUE: sigma re-chosen over BV at every selection set (RefLocal) *)
 RECURSIVE ExecSel(_, _, _, _, _, _, _, _), Complete(_, _, _, _, _, _, _, _)
-ExecSelUnder(S, cfg, frs, tau, sel, sigma, local, V) ==
+ExecSelUnder(S, cfg, frs, tau, sel, sigma, local, BV) ==
   LET flat == Flat(S, frs, tau, sel, sigma, {})
       keys == KeysOf(flat)
       vs == [key \in keys |->
                LET nodes == NodesFor(flat, key) f == nodes[1] IN
                IF f.name = "__typename" THEN {VStr(tau)}
                ELSE IF f.name \notin FieldNames(S, tau) THEN {}
-               ELSE Complete(S, cfg, frs, FieldDef(S, tau, f.name).type, MergedSel(nodes), sigma, local, V)]
+               ELSE Complete(S, cfg, frs, FieldDef(S, tau, f.name).type, MergedSel(nodes), sigma, local, BV)]
   IN {VRec(r) : r \in Product(keys, vs)}
-ExecSel(S, cfg, frs, tau, sel, sigma, local, V) ==
-  IF local THEN UNION {ExecSelUnder(S, cfg, frs, tau, sel, s2, local, V) : s2 \in Assignments(V)}
-  ELSE ExecSelUnder(S, cfg, frs, tau, sel, sigma, local, V)
-Complete(S, cfg, frs, ty, subsel, sigma, local, V) ==
-  IF ty.k = "nn" THEN Complete(S, cfg, frs, ty.of, subsel, sigma, local, V) \ {VNull}
+ExecSel(S, cfg, frs, tau, sel, sigma, local, BV) ==
+  IF local THEN UNION {ExecSelUnder(S, cfg, frs, tau, sel, s2, local, BV) : s2 \in Assignments(BV)}
+  ELSE ExecSelUnder(S, cfg, frs, tau, sel, sigma, local, BV)
+Complete(S, cfg, frs, ty, subsel, sigma, local, BV) ==
+  IF ty.k = "nn" THEN Complete(S, cfg, frs, ty.of, subsel, sigma, local, BV) \ {VNull}
   ELSE {VNull} \cup
-       (IF ty.k = "list" THEN {VList(<<>>)} \cup {VList(<<x>>) : x \in Complete(S, cfg, frs, ty.of, subsel, sigma, local, V)}
+       (IF ty.k = "list" THEN {VList(<<>>)} \cup {VList(<<x>>) : x \in Complete(S, cfg, frs, ty.of, subsel, sigma, local, BV)}
         ELSE IF ~HasType(S, ty.n) THEN {}
         ELSE IF IsLeafType(S, ty.n) THEN LeafVals(S, cfg, ty.n)
-        ELSE UNION {ExecSel(S, cfg, frs, tau, subsel, sigma, local, V) : tau \in PossibleTypes(S, ty.n)})
+        ELSE UNION {ExecSel(S, cfg, frs, tau, subsel, sigma, local, BV) : tau \in PossibleTypes(S, ty.n)})
 
 (* size estimate of the above without building it (to discard cases beyond the bound) *)
 RECURSIVE SizeSel(_, _, _, _, _, _, _, _), SizeComplete(_, _, _, _, _, _, _, _)
 RECURSIVE ProdN(_, _)
 ProdN(keys, n) == IF keys = {} THEN 1 ELSE LET k == CHOOSE x \in keys : TRUE IN n[k] * ProdN(keys \ {k}, n)
-RECURSIVE SumN(_, _)
-SumN(set, n(_)) == IF set = {} THEN 0 ELSE LET x == CHOOSE y \in set : TRUE IN n(x) + SumN(set \ {x}, n)
-SizeSelUnder(S, cfg, frs, tau, sel, sigma, local, V) ==
+SumN(set, n(_)) == MapThenSumSet(n, set)
+SizeSelUnder(S, cfg, frs, tau, sel, sigma, local, BV) ==
   LET flat == Flat(S, frs, tau, sel, sigma, {})
       keys == KeysOf(flat)
       n == [key \in keys |->
                LET nodes == NodesFor(flat, key) f == nodes[1] IN
                IF f.name = "__typename" THEN 1
                ELSE IF f.name \notin FieldNames(S, tau) THEN 0
-               ELSE SizeComplete(S, cfg, frs, FieldDef(S, tau, f.name).type, MergedSel(nodes), sigma, local, V)]
+               ELSE SizeComplete(S, cfg, frs, FieldDef(S, tau, f.name).type, MergedSel(nodes), sigma, local, BV)]
   IN ProdN(keys, n)
-SizeSel(S, cfg, frs, tau, sel, sigma, local, V) ==
-  IF local THEN SumN(Assignments(V), LAMBDA s2 : SizeSelUnder(S, cfg, frs, tau, sel, s2, local, V))
-  ELSE SizeSelUnder(S, cfg, frs, tau, sel, sigma, local, V)
-SizeComplete(S, cfg, frs, ty, subsel, sigma, local, V) ==
-  IF ty.k = "nn" THEN LET m == SizeComplete(S, cfg, frs, ty.of, subsel, sigma, local, V) IN IF m > 0 THEN m - 1 ELSE 0
-  ELSE 1 + (IF ty.k = "list" THEN 1 + SizeComplete(S, cfg, frs, ty.of, subsel, sigma, local, V)
+SizeSel(S, cfg, frs, tau, sel, sigma, local, BV) ==
+  IF local THEN SumN(Assignments(BV), LAMBDA s2 : SizeSelUnder(S, cfg, frs, tau, sel, s2, local, BV))
+  ELSE SizeSelUnder(S, cfg, frs, tau, sel, sigma, local, BV)
+SizeComplete(S, cfg, frs, ty, subsel, sigma, local, BV) ==
+  IF ty.k = "nn" THEN LET m == SizeComplete(S, cfg, frs, ty.of, subsel, sigma, local, BV) IN IF m > 0 THEN m - 1 ELSE 0
+  ELSE 1 + (IF ty.k = "list" THEN 1 + SizeComplete(S, cfg, frs, ty.of, subsel, sigma, local, BV)
             ELSE IF ~HasType(S, ty.n) THEN 0
             ELSE IF IsLeafType(S, ty.n) THEN Cardinality(LeafVals(S, cfg, ty.n))
-            ELSE SumN(PossibleTypes(S, ty.n), LAMBDA tau : SizeSel(S, cfg, frs, tau, subsel, sigma, local, V)))
+            ELSE SumN(PossibleTypes(S, ty.n), LAMBDA tau : SizeSel(S, cfg, frs, tau, subsel, sigma, local, BV)))
 
 (* ------------------------------------------- membership in RefLocal (C02) *)
 RECURSIVE InSel(_, _, _, _, _, _, _), InComplete(_, _, _, _, _, _, _)
-InSel(v, S, cfg, frs, taus, sel, V) ==
+InSel(v, S, cfg, frs, taus, sel, BV) ==
   /\ v.k = "rec"
-  /\ \E tau \in taus, sigma \in Assignments(V) :
+  /\ \E tau \in taus, sigma \in Assignments(BV) :
         LET flat == Flat(S, frs, tau, sel, sigma, {})
             keys == KeysOf(flat)
         IN /\ \A key \in DOMAIN v.f \ keys : v.f[key].k = "undef"
            /\ \A key \in keys :
                 LET nodes == NodesFor(flat, key) f == nodes[1] x == Read(v, key) IN
                 IF f.name = "__typename" THEN x.k = "str" /\ x.s = tau
-                ELSE f.name \in FieldNames(S, tau) /\ InComplete(x, S, cfg, frs, FieldDef(S, tau, f.name).type, MergedSel(nodes), V)
-InComplete(x, S, cfg, frs, ty, subsel, V) ==
-  IF ty.k = "nn" THEN x.k \notin {"null", "undef"} /\ InComplete(x, S, cfg, frs, ty.of, subsel, V)
+                ELSE f.name \in FieldNames(S, tau) /\ InComplete(x, S, cfg, frs, FieldDef(S, tau, f.name).type, MergedSel(nodes), BV)
+InComplete(x, S, cfg, frs, ty, subsel, BV) ==
+  IF ty.k = "nn" THEN x.k \notin {"null", "undef"} /\ InComplete(x, S, cfg, frs, ty.of, subsel, BV)
   ELSE IF x.k = "null" THEN TRUE
   ELSE IF x.k = "undef" THEN FALSE
-  ELSE IF ty.k = "list" THEN x.k = "list" /\ \A i \in DOMAIN x.vs : InComplete(x.vs[i], S, cfg, frs, ty.of, subsel, V)
+  ELSE IF ty.k = "list" THEN x.k = "list" /\ \A i \in DOMAIN x.vs : InComplete(x.vs[i], S, cfg, frs, ty.of, subsel, BV)
   ELSE IF ~HasType(S, ty.n) THEN FALSE
-  ELSE IF IsLeafType(S, ty.n) THEN x \in LeafVals(S, cfg, ty.n)
-  ELSE InSel(x, S, cfg, frs, PossibleTypes(S, ty.n), subsel, V)
+  ELSE IF IsLeafType(S, ty.n) THEN InRefNamed(S, cfg, "OperationOutput", ty.n, x)     \* every value of the leaf type, not only the enumerated representatives
+  ELSE InSel(x, S, cfg, frs, PossibleTypes(S, ty.n), subsel, BV)
 
 (* ------------------------------------------------ one-position perturbations *)
 AltAtoms(S) == {VNull, VUndef, VNum, VBool, VStr("$other"), VStr("$s"), VList(<<>>), VRec(<<>>)}
